@@ -443,6 +443,10 @@ class Partitioner:
             rank, lambda expr: Symbol(part_rank.lower()) in expr.atoms(Symbol))
         sym_step = CoordAccess.build_expr(
             CoordAccess.isolate_rank(expr, part_rank))
+        # A compound step substituted into a larger expression keeps its
+        # meaning only if parenthesized
+        if isinstance(step, EBinOp) and sym_step != EVar(part_rank.lower()):
+            step = EParens(step)
         rank_step = cast(
             Expression, TransUtils.sub_hifiber(
                 sym_step, EVar(
